@@ -895,7 +895,7 @@ CONFIG = {
 
 CONFIG["C13"] = dict(
     modules=["Mdns.Props.C13"],
-    model_files="Mdns/Model/Sched.lean",
+    model_files="Mdns/Model/Sched.lean, Mdns/Model/Client.lean",
     nontrivial=_sim_nontrivial,
     extra_evidence=_sim_extra,
     rule="histories on real daemon threads under the simulation seams, from VERIF_SEED (harness/src/c13.rs, scen.rs): one "
@@ -911,13 +911,26 @@ CONFIG["C13"] = dict(
                "cache-only browses are silent, SearchStarted first - Lean theorems. The monitor ok_C13 evaluates the channel "
                "protocol (first event, Found before Resolved, SearchStopped once and last, at stop / time-out / shutdown), "
                "absence of queries after a stop and the cache-only clause on every real history, including those with "
-               "responders that the model does not cover.",
+               "responders that the model does not cover. On the CLIENT model (Client.iter, compared with the real daemon per iteration; any times, packets, commands): "
+               "every_output_has_a_cause (Client.Origin: each event goes to the channel of a browse / hostname search / queued re-run "
+               "of the state or of a command; each query shape has its cause); silent_for_ever (a channel nobody uses - ChanFree - "
+               "gets no event in ANY later history until a command gives it to a new search); first_event_started_browse / _resolve; "
+               "browse_owns_channel / resolve_owns_channel, onlyBrowse_iter / onlyHost_iter (a search started on a free channel is "
+               "its only user); stop_browse_final / stop_resolve_final (the stop emits exactly SearchStopped, nothing on the channel "
+               "in the rest of that iteration, channel free afterwards: SearchStopped last and once; host name in any letter case); "
+               "no_ptr_query_after_stop + stop_browse_gone (no PTR question for the type in any later history until browsed again); "
+               "no_host_query_after_stop (no A+AAAA / single A or AAAA question for the name, for a daemon without browse work); "
+               "delays_ok_run.",
     level_note="Trusted: Lean kernel; allowed axioms only; hand model tied to the code by differential comparison of whole "
                "histories; simulation seams. Histories with responders are decided by the monitor only (no model prediction); "
                "'forgets the records it cached' is checked through a later browse of the same type in the same history, not "
                "through metrics.",
-    partial=["the no-query theorem is proved for browsed types; for host names only the stop/time-out step contracts are proved",
-             "Found-before-Resolved and shutdown clauses are monitor-only (the cache/resolve part of the daemon is not in the scheduler model)"],
+    partial=["client model: the stop theorems take as hypothesis that the search is still running on its channel when the stop is "
+             "processed (a find? on the state in which the stop command runs); the time-out case is covered by the step contracts "
+             "(C17.timeout_contract_client, resolve_rerun_closed: the queued re-run of a timed-out search is a no-op), not by a "
+             "channel invariant; Found-before-Resolved and the shutdown clause are monitor-only",
+             "no_host_query_after_stop assumes a daemon without browse work (A/AAAA questions for the host of a browsed service are "
+             "legitimate and have the same shape)"],
     assumptions=["event receivers stay alive", "address queries for a host are attributed to the stopped hostname search only when the daemon has no browse in the history"],
 )
 
@@ -1012,8 +1025,7 @@ CONFIG["C20"] = dict(
                "in the metrics and not judged.",
     partial=["`bounded` by what the active searches NEED is monitor-only; the acceptance rule for PTR-less packets makes it false of "
              "the code (known finding D25); cache_bounded bounds the cache by what was DELIVERED and is still live",
-             "the size corollary (number of entries <= number of distinct live delivered records) is not proved (needs the "
-             "uniqueness invariant of the cache lists); the `subtype` map is never pruned (not a table of records)"],
+             "the `subtype` map is never pruned (not a table of records; not covered by drained_* / cache_size_bounded)"],
     assumptions=["metrics are the observable (as the statement says)"],
 )
 
